@@ -54,23 +54,24 @@ class SingleVsBulk(Harness):
         if not hasattr(self, "_cache"):
             self._cache = {}
         if M.prefix not in self._cache:
-            inv, fake, blocks = models.discover_blocks(M, self.cfg, crc=crc)
-            info = range(0x88b8, 0x88b8 + 0x21) if self.cfg["family"] == "ET" else range(0x7531, 0x7531 + 0x28)
-            base = {a: v for a, v in fake.regs.items() if a in info}
+            inv0, fake0, blocks = models.discover_blocks(M, self.cfg, crc=crc)
             # the definition that the bulk result reports for this id (the later one wins), and its block
             target = None
             for cmd, sensors in blocks:
                 for s in sensors:
                     if s.id_ == self.sid:
-                        target = (cmd, s)
-            self._cache[M.prefix] = (inv, fake, base, target)
-        inv, fake, base, target = self._cache[M.prefix]
-        fake.regs = dict(base)
+                        target = (cmd.first_address, cmd.value, s)
+            self._cache[M.prefix] = target
+        target = self._cache[M.prefix]
+        # a fresh inverter object and simulated inverter for every path (no state may leak between paths)
+        inv, fake = models.make(M, self.cfg, crc=crc)
+        info = range(0x88b8, 0x88b8 + 0x21) if self.cfg["family"] == "ET" else range(0x7531, 0x7531 + 0x28)
+        fake.regs = {a: v for a, v in fake.regs.items() if a in info}
         fake.default = default
-        fake.silent = lambda op: False
         fake.log.clear()
         fake.raw_log.clear()
-        inv._sensors_map = None
+        if target is not None:
+            target = (inv._read_command(target[0], target[1]), target[2])
         return inv, fake, target
 
     def _run(self, M, default, crc):
